@@ -38,14 +38,15 @@ RULE = ("every template (quick 8 messages per template, thorough 16 x 16; x5 for
         "generated from that serializer's template so the =| path is exercised; forced awkward strings; + text fuzz for "
         "the safe-mode clause. distinct_nontrivial = distinct (message, block-count vector, beautify, table) round trips"
         ". Round-5 additions: the replacement table is the caller's - value tables, a table whose values are all zero-like, a table of callables (printed with values, parsed with callables); a directed law for what [[NAME]] stands for (table value, called if callable, whatever its truthiness; undefined names are errors)"
-        ". Round 7: doubles that are exact singles; pairs of messages carrying the same payload under different switching siblings printed alternately from short-lived objects")
+        ". Round 7: doubles that are exact singles; pairs of messages carrying the same payload under different switching siblings printed alternately from short-lived objects"
+        ". Round 8: one long-lived message shown, edited in place field by field (values of another message of its type, neighbours kept), shown again; payloads whose trailing string lacks its terminator; texts produced before a templates reload - successful, failing at once, failing a third of the way in (injected at importlib.reload) - parsed afterwards")
 ASSUMPTIONS = [
     "packet id, acks and extra header bytes are not part of the text: compared bodies use the same header fields",
     "float values are NaN-free (as C01); NaN has no stable textual form",
     "safe-mode monitor: any `exec` audit event, any call of subfield_eval or of a canary while "
     "from_human_string(safe=True) is on the stack is an evaluation",
 ]
-MUST_REACH = {"messages_shown_edited_shown_again": 150, "failed_template_reloads_provoked": 2, "earlier_texts_parsed_after_reload:syntax-error": 20, "earlier_texts_parsed_after_reload:dies-midway": 20, "earlier_texts_parsed_after_reload:good": 20, "roundtrips": 800, "templates_covered": 481, "beautified_roundtrips": 300, "packed_fields_printed": 200,
+MUST_REACH = {"messages_shown_edited_shown_again": 150, "unterminated_registered_payloads": 20, "failed_template_reloads_provoked": 2, "earlier_texts_parsed_after_reload:syntax-error": 20, "earlier_texts_parsed_after_reload:dies-midway": 20, "earlier_texts_parsed_after_reload:good": 20, "roundtrips": 800, "templates_covered": 481, "beautified_roundtrips": 300, "packed_fields_printed": 200,
               "multiline_strings": 30, "replacement_hits": 30, "safe_fuzz_texts": 300, "safe_fuzz_rejected_eval": 50,
               "registered_payload_messages": 100, "same_bytes_two_contexts": 5, "damaged_registered_payloads": 5, "degenerate_registered_payloads": 5,
               "alternating_context_message_pairs": 5, "replacement_semantics_cases": 20, "replacement_semantics_falsy_values": 4, "replacement_hits_lazy_table": 3}
@@ -309,6 +310,11 @@ def registered_payload(rng, key, block_vals):
                         if bytes(b) != p:
                             p = bytes(b)
                             _STATE["damaged_registered_payloads"] = _STATE.get("damaged_registered_payloads", 0) + 1
+            elif r < 0.55 and p.endswith(b"\x00") and len(p) > 1:
+                # the sender left the terminator of a trailing string off (they do): still a payload the field can carry, and one
+                # the serializer itself would not write
+                p = p[:-1]
+                _STATE["unterminated_registered_payloads"] = _STATE.get("unterminated_registered_payloads", 0) + 1
             return p, dict(block.vars)
         except Exception:
             continue
@@ -742,6 +748,7 @@ def run(ctx):
     ctx.count("same_bytes_two_contexts", _STATE.get("same_bytes_two_contexts", 0))
     ctx.count("damaged_registered_payloads", _STATE.get("damaged_registered_payloads", 0))
     ctx.count("degenerate_registered_payloads", _STATE.get("degenerate_registered_payloads", 0))
+    ctx.count("unterminated_registered_payloads", _STATE.get("unterminated_registered_payloads", 0))
     safe_fuzz(ctx, rng)
     if ctx.shard == 0:
         check_replacement_semantics(ctx, rng)
